@@ -49,6 +49,17 @@ def eraseIvl (s : ISet) (lo hi : Nat) : ISet :=
 def containsIvl (s : ISet) (lo hi : Nat) : Bool :=
   (s.foldl (fun rem j => eraseIvl rem j.lo j.hi) [⟨lo, hi⟩]).isEmpty
 
+/-- `interval_set::insert(right_open(lo, hi))`: over a discrete domain the closed interval `[lo, hi - 1]`; an empty
+    interval (`hi ≤ lo`) inserts nothing.  (Not used by the tracker — `AckedRange::next` only builds closed intervals —
+    but `interval_start` / `interval_end` are written for such bounds; exercised by the `icl` correspondence stream.) -/
+def insertRO (s : ISet) (lo hi : Nat) : ISet := if lo < hi then insertIvl s lo (hi - 1) else s
+
+/-- `icl::cardinality(set)`: the number of points -/
+def ISet.card (s : ISet) : Nat := s.foldl (fun n j => n + (j.hi + 1 - j.lo)) 0
+
+/-- `set.iterative_size()` / `icl::interval_count(set)`: the number of maximal intervals -/
+def ISet.count (s : ISet) : Nat := s.length
+
 /-! ### AckedRange -/
 
 structure Range where
